@@ -587,8 +587,8 @@ func prepare(r *runner, hid int, mode string, depth int, label, scenario string,
 
 // tearMode decides how densely the unsynced region of one image is enumerated.
 // thorough tier: every offset (regions up to the cap) for every call of every
-// sixteenth history and for 3% of the calls of the others, the quick rule (every
-// offset of the last two records + 64 sampled) for another 12%, structural
+// 24th history and for 2% of the calls of the others, the quick rule (every
+// offset of the last two records + 64 sampled) for another 8%, structural
 // offsets + a sample elsewhere. quick tier: the quick rule for a quarter of
 // the calls and for every call that cut a segment or wrote a snapshot marker,
 // structural offsets + a sample elsewhere.
@@ -597,9 +597,9 @@ func tearMode(mode string, hid int, im *Image, rng *rand.Rand) string {
 	switch mode {
 	case "thorough":
 		switch {
-		case hid%16 == 0 || u < 3:
+		case hid%24 == 0 || u < 2:
 			return "thorough"
-		case u < 15 || im.cut || im.Op == "snap":
+		case u < 10 || im.cut || im.Op == "snap":
 			return "quick"
 		}
 		return "light"
